@@ -1,3 +1,195 @@
+/-
+  Props/C09.lean — C09: positions resolve, index and traverse consistently, counting UTF-16 units.
+  Everything is stated against the flat token sequence `ftoks doc.kids` (one token per UTF-16 unit
+  of text, so all positions are UTF-16 positions).  Helper lemmas: Proofs/Resolve.lean.
+-/
 import PM.Resolve
+import Proofs.Toks
+import Proofs.TokCore
+import Proofs.Resolve
 namespace PM.C09
+open PM
+
+/-- the `k` tokens starting at position `p` -/
+def window (l : List Tok) (p k : Nat) : List Tok := (l.drop p).take k
+
+/-- the text units among a list of tokens -/
+def unitsOf : List Tok → List Nat
+  | [] => []
+  | .unit u _ :: r => u :: unitsOf r
+  | _ :: r => unitsOf r
+
+/-- **every position 0..size resolves**, and no other -/
+theorem resolve_total (doc : Node) (pos : Nat) :
+    (∃ r, doc.resolve pos = some r) ↔ pos ≤ fsize doc.kids := by
+  constructor
+  · rintro ⟨r, h⟩; exact (resolve_resolved h).le
+  · exact resolve_isSome doc pos
+
+theorem resolve_pos (doc : Node) (pos : Nat) (r : RPos) (h : doc.resolve pos = some r) :
+    r.pos = pos ∧ r.path ≠ [] ∧ r.node 0 = doc := by
+  have R := resolve_resolved h
+  refine ⟨R.pos_eq, ?_, R.node_zero⟩
+  obtain ⟨e, tl, h1, _⟩ := R.head
+  simp [h1]
+
+/-- **depth = unmatched opens before the position** -/
+theorem resolve_depth (doc : Node) (pos : Nat) (r : RPos) (h : doc.resolve pos = some r) :
+    (r.depth : Int) = balance ((ftoks doc.kids).take pos) ∧ r.depth = depthAt doc.kids pos := by
+  have R := resolve_resolved h
+  rw [R.depth_eq]
+  exact ⟨depthAt_balance _ _ R.le, rfl⟩
+
+/-- **ancestors form a chain**: the node at depth `k+1` is child `index k` of the node at depth `k` -/
+theorem resolve_chain (doc : Node) (pos : Nat) (r : RPos) (h : doc.resolve pos = some r)
+    (k : Nat) (hk : k < r.depth) :
+    (r.node k).kids[r.index k]? = some (r.node (k + 1)) := by
+  exact ((resolve_resolved h).chain k hk).1
+
+/-- **start/end of each ancestor delimit exactly its content tokens**, and contain the position -/
+theorem start_end_window (doc : Node) (pos : Nat) (r : RPos) (h : doc.resolve pos = some r)
+    (k : Nat) (hk : k ≤ r.depth) :
+    window (ftoks doc.kids) (r.start k) (fsize (r.node k).kids) = ftoks (r.node k).kids ∧
+    r.start k ≤ pos ∧ pos ≤ r.end_ k ∧ r.end_ k = r.start k + fsize (r.node k).kids := by
+  have R := resolve_resolved h
+  have E := R.entry k hk
+  refine ⟨R.window_kids k hk, ?_, E.le_end, rfl⟩
+  have := E.pos_eq; have := E.pos_le; omega
+
+/-- **before/after of an ancestor are the positions of its open token and just past its close** -/
+theorem before_after_spec (doc : Node) (pos : Nat) (r : RPos) (h : doc.resolve pos = some r)
+    (k : Nat) (hk1 : 1 ≤ k) (hk : k ≤ r.depth) :
+    r.before k = some (r.start k - 1) ∧ r.after k = some (r.end_ k + 1) ∧
+    window (ftoks doc.kids) (r.start k - 1) (r.node k).size = (r.node k).toks := by
+  have R := resolve_resolved h
+  obtain ⟨j, rfl⟩ : ∃ j, k = j + 1 := ⟨k - 1, by omega⟩
+  have hc := (R.chain j (by omega)).2
+  have hw := R.window_node j (by omega)
+  refine ⟨?_, ?_, ?_⟩
+  · simp [RPos.before, RPos.start, show j ≠ r.depth by omega, hk]
+  · simp [RPos.after, RPos.end_, RPos.start, show j ≠ r.depth by omega, hk, hc]; omega
+  · simpa [window, RPos.start] using hw
+
+/-- the child index at each level counts the whole children before the position at that level -/
+theorem index_spec (doc : Node) (pos : Nat) (r : RPos) (h : doc.resolve pos = some r)
+    (k : Nat) (hk : k ≤ r.depth) :
+    r.index k ≤ (r.node k).kids.length ∧
+    (r.entry k).pos = r.start k + fsize ((r.node k).kids.take (r.index k)) ∧
+    (r.entry k).pos ≤ pos := by
+  have E := (resolve_resolved h).entry k hk
+  exact ⟨E.idx_le, E.pos_eq, E.pos_le⟩
+
+/-- parent offset and text offset -/
+theorem offsets_spec (doc : Node) (pos : Nat) (r : RPos) (h : doc.resolve pos = some r) :
+    r.parentOffset + r.start r.depth = pos ∧
+    r.textOffset + (r.entry r.depth).pos = pos ∧
+    (r.textOffset ≠ 0 → ∃ s m, r.parent.kids[r.index r.depth]? = some (.text s m) ∧ r.textOffset < s.length) := by
+  have R := resolve_resolved h
+  have E := R.entry r.depth (Nat.le_refl _)
+  have h1 := E.pos_eq; have h2 := E.pos_le
+  refine ⟨?_, ?_, ?_⟩
+  · simp only [RPos.parentOffset, R.pos_eq]; omega
+  · simp only [RPos.textOffset, R.pos_eq]; omega
+  · intro hne
+    simp only [RPos.textOffset, R.pos_eq] at hne ⊢
+    rcases R.last with hl | ⟨s, m, hs, hlt⟩
+    · omega
+    · exact ⟨s, m, hs, hlt⟩
+
+/-- **node_at**: the node found starts at the position or is the text node covering it; its
+    tokens are the tokens of the document there -/
+-- STATEMENT CHANGED: added `hn : n.size ≠ 0`.  Without it `pos < p + n.size` fails when `node_at`
+-- lands on an empty text node (size 0; not a normal-form document, but a valid `Node` value):
+-- `doc = .elem 0 [] [] [.text [] []]`, `pos = 0` gives `doc.nodeAt 0 = .ok (some (.text [] []))`,
+-- and no `p ≤ 0` has `0 < p + 0`.
+theorem nodeAt_spec (doc : Node) (pos : Nat) (n : Node) (h : doc.nodeAt pos = .ok (some n))
+    (hn : n.size ≠ 0) :
+    ∃ p, p ≤ pos ∧ pos < p + n.size ∧ window (ftoks doc.kids) p n.size = n.toks ∧
+      (p = pos ∨ n.isText = true) := by
+  obtain ⟨p, h1, h2, h3, h4⟩ := nodeAtKids_some doc.kids pos n h
+  exact ⟨p, h1, h2 hn, h3, h4⟩
+
+theorem nodeAt_none (doc : Node) (pos : Nat) (h : doc.nodeAt pos = .ok none) :
+    pos ≤ fsize doc.kids ∧ ((ftoks doc.kids).drop pos).head? ∈ [none, some Tok.cl] := by
+  obtain ⟨h1, h2⟩ := nodeAtKids_none doc.kids pos h
+  refine ⟨h1, ?_⟩
+  have := h2 [] (Or.inl rfl)
+  simpa [ClosedTail] using this
+
+theorem unitsOf_eq_tokUnits (l : List Tok) : unitsOf l = tokUnits l := by
+  induction l with
+  | nil => rfl
+  | cons x l ih => cases x <;> simp [unitsOf, ih]
+
+/-- **text_between returns exactly the text units of the tokens in the range** -/
+theorem textBetween_spec (kids : List Node) (f t : Nat) (hft : f ≤ t) (ht : t ≤ fsize kids) :
+    textBetween kids f t = unitsOf (window (ftoks kids) f (t - f)) := by
+  rw [textBetween_toks kids f t hft ht, unitsOf_eq_tokUnits, window, List.drop_take]
+
+/-- **nodes_between reports absolute positions**: every visited node's tokens are the document's
+    tokens at the reported position, and the node overlaps the range -/
+theorem nodesBetween_positions (kids : List Node) (f t : Nat) (ht : t ≤ fsize kids)
+    (n : Node) (p i : Nat) (hv : (n, p, i) ∈ nodesBetween kids f t 0 0) :
+    window (ftoks kids) p n.size = n.toks ∧ p < t ∧ f < p + n.size := by
+  obtain ⟨q, h1, h2, h3, h4⟩ := nodesBetween_visit kids f t 0 0 n p i ht hv
+  have : p = q := by omega
+  subst this
+  exact ⟨h2, h3, h4⟩
+
+/-- `marks()` inside a text node is that node's mark set; at a boundary it is taken from the node
+    before (else after), minus non-inclusive marks not continued on the other side -/
+theorem marks_in_text (S : Schema) (doc : Node) (pos : Nat) (r : RPos) (h : doc.resolve pos = some r)
+    (ht : r.textOffset ≠ 0) :
+    ∃ s m, r.parent.kids[r.index r.depth]? = some (.text s m) ∧ r.marks S = m := by
+  have R := resolve_resolved h
+  have hto : pos - (r.entry r.depth).pos ≠ 0 := by simpa [RPos.textOffset, R.pos_eq] using ht
+  rcases R.last with hl | ⟨s, m, hs, hlt⟩
+  · omega
+  · have hs' : r.parent.kids[r.index r.depth]? = some (.text s m) := hs
+    refine ⟨s, m, hs', ?_⟩
+    have := child_size_le _ _ _ hs'
+    have hne : fsize r.parent.kids ≠ 0 := by simp at this; omega
+    simp [RPos.marks, hne, ht, hs', Node.marks]
+
+theorem marks_sublist (S : Schema) (doc : Node) (pos : Nat) (r : RPos) (h : doc.resolve pos = some r) :
+    ∃ n, (n ∈ r.parent.kids ∧ (r.marks S).Sublist n.marks) ∨ r.marks S = [] := by
+  have _ := h
+  simp only [RPos.marks]
+  split
+  · exact ⟨default, Or.inr rfl⟩
+  · split
+    · split
+      · rename_i c hc
+        exact ⟨c, Or.inl ⟨List.mem_of_getElem? hc, List.Sublist.refl _⟩⟩
+      · exact ⟨default, Or.inr rfl⟩
+    · split
+      · rename_i main hb
+        refine ⟨main, Or.inl ⟨?_, dropNonInclusive_sublist _ _ _⟩⟩
+        split at hb
+        · simp at hb
+        · exact List.mem_of_getElem? hb
+      · split
+        · rename_i main hb
+          exact ⟨main, Or.inl ⟨List.mem_of_getElem? hb, dropNonInclusive_sublist _ _ _⟩⟩
+        · exact ⟨default, Or.inr rfl⟩
+
+/-- shared depth: the deepest ancestor of the position whose content also contains `other` -/
+theorem sharedDepth_spec (doc : Node) (pos other : Nat) (r : RPos) (h : doc.resolve pos = some r)
+    (ho : other ≤ fsize doc.kids) :
+    let d := r.sharedDepth other
+    d ≤ r.depth ∧ r.start d ≤ other ∧ other ≤ r.end_ d ∧
+    ∀ k, d < k → k ≤ r.depth → ¬ (r.start k ≤ other ∧ other ≤ r.end_ k) := by
+  have R := resolve_resolved h
+  intro d
+  obtain ⟨h1, h2, h3⟩ := sharedDepth_go r other r.depth
+  refine ⟨h1, ?_, ?_, h3⟩
+  · rcases h2 with h0 | h2
+    · have : d = 0 := h0
+      rw [this]; simp [RPos.start]
+    · exact h2.1
+  · rcases h2 with h0 | h2
+    · have : d = 0 := h0
+      rw [this]; simpa [RPos.end_, RPos.start, R.node_zero] using ho
+    · exact h2.2
+
 end PM.C09
